@@ -225,6 +225,33 @@ func Check(c Case) ([]evid.Violation, info) {
 				}
 			}
 		}
+		// a binding that only B2's build of SvcA declares (a newer proto file): while B2 is registered the
+		// rule is live and must route, to any live owner of SvcA; once B2 is gone the binding may stay or
+		// go, but no dead backend answers it
+		{
+			res := drive.Serve(mux, drive.Request("GET", fixture.ExtraRoute+"/QUJD", "", nil, nil, 0))
+			if res.Panic != nil {
+				return fail(step, "panic", res.PanicSig(), "probe of the binding only B2 declares panicked: %v", res.Panic)
+			}
+			set := owners["SvcA"]
+			switch res.Rec.Code {
+			case 200:
+				m := dynamicpb.NewMessage(fixture.World.MsgDesc("un.All"))
+				tag := ""
+				if err := protojson.Unmarshal(res.Rec.Body.Bytes(), m); err == nil {
+					tag = m.Get(m.Descriptor().Fields().ByName("f_string")).String()
+				}
+				if !set[tag] {
+					return fail(step, "wrong-owner", "wrong-owner", "the binding only B2 declares was answered by %q, live owners of SvcA %v", tag, keys(set))
+				}
+			case 404, 501:
+				if set["B2"] {
+					return fail(step, "live-rule-unbound", "live-rule-unbound", "B2 is registered and declares GET %s/{f_bytes} for SvcA.Ping, but the route answers %d %q (live owners of SvcA: %v)", fixture.ExtraRoute, res.Rec.Code, strings.TrimSpace(res.Rec.Body.String()), keys(set))
+				}
+			default:
+				return fail(step, "probe", "http-probe-error", "probe of the binding only B2 declares: status %d %q", res.Rec.Code, res.Rec.Body.String())
+			}
+		}
 		for b, at := range dropped {
 			if now := fixture.Backends[b].Count.Load(); now != at {
 				return fail(step, "dropped-conn-served", "dropped-conn-served", "dropped backend %s received %d more requests", b, now-at)
